@@ -47,9 +47,16 @@ def r1(ctx):
             continue
         ff = R.FnFacts(P, b, include_closures=False)
         guards = {}
+        via = delegated_checks(P, b)
         for side, key in want.items():
             cs = [c for c in ff.cmps.get(key, []) if c.validating and c.switch_bb is not None]
             detail = {"function": b.path, "required": key, "found": sorted(k for k in ff.cmps if "slice::len" in k)}
+            if not cs and key in via:
+                # the check lives in a private helper called as `helper(..)?` with the same arguments
+                call, helper = via[key]
+                guards[side] = _CallGuard(b, call, "%s in %s" % (key, helper))
+                ctx.ok(rule, "%s#%s-check" % (fn.split("::")[-1], side), dict(detail, checked_by=helper, call=call.loc()))
+                continue
             if not cs:
                 ctx.fail(rule, "%s#%s-check" % (fn.split("::")[-1], side),
                          "the %s length check `8 * %s.len() < %s_bit_position + len` (normal form %s) is missing or has a different "
@@ -74,6 +81,53 @@ def r1(ctx):
                          "%s at %s is not dominated by the %s length check" % (what, loc, side), loc, detail)
         else:
             ctx.ok(rule, fn.split("::")[-1] + "#dominance", detail)
+
+
+class _CallGuard:
+    """a validating comparison that a `helper(..)?` call performs: for dominance it behaves like a switch at the block where
+    the `?` branches (its success continuation is everything the call's continuation dominates)"""
+
+    def __init__(self, body, cs, raw):
+        self.raw = raw
+        # the block whose switch separates Ok from Err of the `?`
+        sb = None
+        for c2 in body.calls():
+            if c2.name == "branch" and c2.args and c2.args[0].get("k") in ("copy", "move") and not cs.dest["p"] \
+                    and c2.args[0]["pl"]["l"] == cs.dest["l"] and c2.target is not None:
+                t = body.blocks[c2.target]["term"]
+                if t and t["k"] == "switch":
+                    sb = c2.target
+        self.switch_bb = sb if sb is not None else cs.bb
+
+
+def delegated_checks(P, b):
+    """validating comparisons of fallible private helpers that `b` calls with `?`, expressed over b's own parameters:
+    {positional comparison key: (call site, helper name)}"""
+    out = {}
+    O = X.Origins(b, P)
+    for cs in b.calls():
+        if cs.fn is None or "Result<" not in (cs.term.get("dty") or "") or not cs.is_local:
+            continue
+        t = P.resolve_callee(b.crate, cs)
+        if t is None or t.def_kind not in ("Fn", "AssocFn") or t.key == b.key:
+            continue
+        if not any(c2.name == "branch" and c2.args and c2.args[0].get("k") in ("copy", "move") and not cs.dest["p"]
+                   and c2.args[0]["pl"]["l"] == cs.dest["l"] for c2 in b.calls()):
+            continue
+        pn = t.param_names()
+        sub = {pn[i + 1]: a for i, a in enumerate(O.call_args(cs)) if pn.get(i + 1)}
+        Ot = X.Origins(t, P)
+        for c in F.comparisons(t, Ot):
+            if not c.validating or c.lex is None or c.rex is None:
+                continue
+            c2 = F.normalise_cmp("Lt", R.substitute(c.lex, sub), R.substitute(c.rex, sub))
+            if c2 is None:
+                continue
+            # same orientation and boundary as in the helper, operands renamed to the caller's
+            c2.kind, c2.boundary = c.kind, c.boundary if (F.rd(c2.lex) <= F.rd(c2.rex)) == (c.lhs <= c.rhs) else (
+                (-c.boundary + 1) if c.kind == "b" else -c.boundary)
+            out[R.cmp_key_positional(c2)] = (cs, X.short(t.path))
+    return out
 
 
 def validating_keys(P, b):
